@@ -1277,7 +1277,7 @@ static void Disassemble_87C800(
             pInfo->NextAddresses[pInfo->NextAddressCount++]
                     = (Address + 2 + Dist) & 0xffff;
             as_snprintf(
-                    pInfo->SrcLine, sizeof(pInfo->SrcLine), "jrs\tt,%sh",
+                    pInfo->SrcLine, sizeof(pInfo->SrcLine), "jrs\tt,%s",
                     MakeSymbolic(
                             pInfo->NextAddresses[1], 2, "lab_", NumBuf, sizeof(NumBuf)));
             break;
@@ -1322,7 +1322,7 @@ static void Disassemble_87C800(
             pInfo->NextAddresses[pInfo->NextAddressCount++]
                     = (Address + 2 + Dist) & 0xffff;
             as_snprintf(
-                    pInfo->SrcLine, sizeof(pInfo->SrcLine), "jrs\tf,%sh",
+                    pInfo->SrcLine, sizeof(pInfo->SrcLine), "jrs\tf,%s",
                     MakeSymbolic(
                             pInfo->NextAddresses[1], 2, "lab_", NumBuf, sizeof(NumBuf)));
             break;
@@ -1350,7 +1350,7 @@ static void Disassemble_87C800(
                         = (((Word)Data[1]) << 8) | Data[0];
             }
             as_snprintf(
-                    pInfo->SrcLine, sizeof(pInfo->SrcLine), "callv\t%u\t ; %sh", Vector,
+                    pInfo->SrcLine, sizeof(pInfo->SrcLine), "callv\t%u\t ; %s", Vector,
                     MakeSymbolic(
                             pInfo->NextAddresses[1], 2, "subv_", NumBuf, sizeof(NumBuf)));
             nData -= 2;
@@ -1375,7 +1375,7 @@ static void Disassemble_87C800(
             pInfo->NextAddresses[pInfo->NextAddressCount++]
                     = (Address + 2 + Dist) & 0xffff;
             as_snprintf(
-                    pInfo->SrcLine, sizeof(pInfo->SrcLine), "jr\t%s,%sh",
+                    pInfo->SrcLine, sizeof(pInfo->SrcLine), "jr\t%s,%s",
                     RelNames[Opcode & 7],
                     MakeSymbolic(
                             pInfo->NextAddresses[1], 2, "lab_", NumBuf, sizeof(NumBuf)));
@@ -1477,7 +1477,7 @@ static void Disassemble_87C800(
             pInfo->NextAddresses[pInfo->NextAddressCount++]
                     = (Address + 2 + Dist) & 0xffff;
             as_snprintf(
-                    pInfo->SrcLine, sizeof(pInfo->SrcLine), "jr\t%sh",
+                    pInfo->SrcLine, sizeof(pInfo->SrcLine), "jr\t%s",
                     MakeSymbolic(
                             pInfo->NextAddresses[0], 2, "lab_", NumBuf, sizeof(NumBuf)));
             break;
@@ -1490,7 +1490,7 @@ static void Disassemble_87C800(
             pInfo->NextAddresses[pInfo->NextAddressCount++]
                     = (((Word)Data[1]) << 8) | Data[0];
             as_snprintf(
-                    pInfo->SrcLine, sizeof(pInfo->SrcLine), "call\t%sh",
+                    pInfo->SrcLine, sizeof(pInfo->SrcLine), "call\t%s",
                     MakeSymbolic(
                             pInfo->NextAddresses[1], 2, "sub_", NumBuf, sizeof(NumBuf)));
             break;
@@ -1502,7 +1502,7 @@ static void Disassemble_87C800(
             SimpleNextAddress(pInfo, Address);
             pInfo->NextAddresses[pInfo->NextAddressCount++] = 0xff00 + Data[0];
             as_snprintf(
-                    pInfo->SrcLine, sizeof(pInfo->SrcLine), "callp\t%sh",
+                    pInfo->SrcLine, sizeof(pInfo->SrcLine), "callp\t%s",
                     MakeSymbolic(
                             pInfo->NextAddresses[1], 2, "sub_", NumBuf, sizeof(NumBuf)));
             break;
@@ -1514,7 +1514,7 @@ static void Disassemble_87C800(
             pInfo->NextAddresses[pInfo->NextAddressCount++]
                     = (((Word)Data[1]) << 8) | Data[0];
             as_snprintf(
-                    pInfo->SrcLine, sizeof(pInfo->SrcLine), "jp\t%sh",
+                    pInfo->SrcLine, sizeof(pInfo->SrcLine), "jp\t%s",
                     MakeSymbolic(
                             pInfo->NextAddresses[0], 2, "lab_", NumBuf, sizeof(NumBuf)));
             break;
